@@ -25,7 +25,7 @@ if VERIF not in sys.path:
 
 import z3  # noqa: E402
 
-from . import frontend, smt, verify, replay  # noqa: E402
+from . import frontend, smt, verify, replay, re_model, regex  # noqa: E402,F401  (regex: assumed contract of Pattern.match on concrete patterns)
 from .api import Registry, Module, Contract  # noqa: E402
 
 
@@ -41,22 +41,55 @@ def load_modules():
     return mods
 
 
+class LoopSpecs(list):
+    """the specs that sidecar modules give for one loop"""
+
+    def pick(self, current_module):
+        for ls in self:
+            if getattr(ls, 'module', None) is current_module:
+                return ls
+        return self[0]
+
+
 def build_registry(mods):
+    # hooks that need every sidecar module to be loaded (e.g. sharing contracts between properties)
+    for m in mods:
+        hook = getattr(m, 'after_load', None)
+        if hook is not None:
+            hook()
+            m.after_load = None
+    # which sidecar modules build on which (python imports between them), transitively
+    import types as _types
+    by_py = {id(m.pymodule): m for m in mods if getattr(m, 'pymodule', None) is not None}
+    for m in mods:
+        m.uses = set()
+    changed = True
+    while changed:
+        changed = False
+        for m in mods:
+            py = getattr(m, 'pymodule', None)
+            if py is None:
+                continue
+            for v in list(vars(py).values()):
+                other = by_py.get(id(v)) if isinstance(v, _types.ModuleType) else None
+                if other is not None and other is not m:
+                    new = {other.prop} | other.uses
+                    if not new <= m.uses:
+                        m.uses |= new
+                        changed = True
     reg = Registry()
     reg.loops_by_key = {}
     for m in mods:
         for c in m.contracts:
-            if c.qname in reg.contracts:
-                # several properties may share a function: merge property ids, keep the first contract
-                reg.contracts[c.qname].props = tuple(sorted(set(reg.contracts[c.qname].props) | set(c.props)))
-                continue
             reg.add_contract(c)
         for f, mm in m.models.items():
-            reg.models[f] = mm
+            reg.scoped_models.setdefault(m.prop, {})[f] = mm
+            reg.__dict__.setdefault('module_models', {}).setdefault(m, {})[f] = mm
         for f, ab in getattr(m, 'abstractions', {}).items():
             reg.abstractions[f] = ab
         for ls in m.loops:
-            reg.loops[(ls.qname, ls.ordinal)] = ls
+            # keyed per module: the spec of the module whose contract is being verified is preferred (loops.find_spec)
+            reg.loops[(ls.qname, ls.ordinal, m.prop)] = ls
     from contracts import common
     from . import models as _models
     reg.models[common.forall_range] = _models.q_forall
@@ -67,17 +100,30 @@ def build_registry(mods):
     for _n in ('conj', 'slot', 'snapshot_lists', 'all_keys'):
         if hasattr(common, _n):
             reg.models[getattr(common, _n)] = getattr(_models, 'm_' + _n)
+    from . import texts as _texts
+    reg.models[common.prefix_join] = _texts.m_prefix_join
+    reg.models[common.peek] = _texts.m_peek
+    from . import textio as _textio
+    _textio.install(reg)
+    from . import charclass as _charclass
+    reg.models[common.all_chars] = _charclass.m_all_chars
+    reg.models[common.sum_prefix] = _models.q_sum_prefix
+    reg.models[common.count_prefix] = _models.q_count_prefix
+    reg.models[common.nat_of_str] = _models.q_nat_of_str
+    reg.models[common.keys_subset] = _models.q_keys_subset
+    reg.models[common.prefix_fold] = _models.m_prefix_fold
+    reg.models[common.forall_keys] = _models.q_forall_keys
     reg.models[common.items_of] = _models.m_items_of
     reg.link()
     # loop specs keyed by (file, ast-qualname, ordinal)
-    for (q, ordinal), ls in reg.loops.items():
+    for (q, ordinal, _prop), ls in reg.loops.items():
         modname, _, path = q.partition(':')
         try:
             mod = importlib.import_module(modname)
         except Exception as e:
             reg.missing.append((q, 'loop spec: cannot import %s' % modname))
             continue
-        reg.loops_by_key[(mod.__file__, path, ordinal)] = ls
+        reg.loops_by_key.setdefault((mod.__file__, path, ordinal), LoopSpecs()).append(ls)
     return reg
 
 
@@ -103,7 +149,15 @@ def _task_function(qname):
     def body():
         try:
             c = _REG.contracts[qname]
-            rep = verify.verify_function(_REG, c)
+            _REG.current_module = getattr(c, 'module', None)
+            prof = os.environ.get('PYVC_PROFILE')
+            if prof and prof in qname:
+                import cProfile
+                pr = cProfile.Profile()
+                rep = pr.runcall(verify.verify_function, _REG, c)
+                pr.dump_stats('/tmp/pyvc-profile-%d.prof' % os.getpid())
+            else:
+                rep = verify.verify_function(_REG, c)
             result['rep'] = _summarize(c, rep)
         except BaseException:
             result['crash'] = traceback.format_exc()
@@ -130,7 +184,7 @@ def _summarize(c, rep):
             v = smt.discharge(pc, goal, want_smt2=(len(samples) < 1), all_backends=all_backends)
             solver_time += v.time
             by_backend[v.backend] = by_backend.get(v.backend, 0) + 1
-            if v.smt2 and len(samples) < 1 and v.status == 'unsat' and v.backend != 'trivial':
+            if v.smt2 and len(samples) < 1 and v.status == 'unsat' and v.backend != 'path-evaluation':
                 samples.append({'obligation': name, 'verdict': 'unsat', 'backend': v.backend,
                                 'smt2': v.smt2[:3000]})
             if v.status == 'sat':
@@ -166,7 +220,7 @@ def _summarize(c, rep):
         clauses[name] = {'status': status, 'instances': len(insts), 'detail': detail,
                          'kind': (insts[0][2] or {}).get('kind')}
     return {
-        'qname': c.qname, 'props': list(c.props), 'paths': rep.paths, 'aborted_paths': rep.aborted_paths,
+        'qname': getattr(c, 'key', c.qname), 'props': list(c.props), 'paths': rep.paths, 'aborted_paths': rep.aborted_paths,
         'clauses': clauses, 'unsupported': rep.unsupported, 'errors': rep.errors,
         'inlined': sorted(rep.inlined), 'used_contracts': sorted(rep.used_contracts),
         'used_models': sorted(rep.used_models), 'native_calls': sorted(rep.native_calls),
@@ -174,8 +228,35 @@ def _summarize(c, rep):
         'source': rep.source, 'sha256': rep.sha, 'wall': rep.wall, 'solver_time': solver_time,
         'by_backend': by_backend, 'vcs': vcs, 'samples': samples,
         'unknown_feasibility': rep.unknown_feasibility, 'feasibility_queries': rep.feasibility_queries,
+        'slow_queries': [list(q) for q in rep.slow_queries[:20]],
+        'uncovered': rep.uncovered,
         'deps_sha': rep.deps_sha,
+        'dep_shas': rep.dep_shas,
     }
+
+
+def _lost_obligations(qname, have, why):
+    """A function that was verified on the pinned tree cannot be brought through the verifier any more
+    (construct outside the supported subset, loop or contract predicate that no longer fits, verifier error)
+    AND the source text its obligations were generated from has changed: every obligation that was discharged
+    on the pinned tree and is not re-established now is reported as no longer proved (DESIGN 2.9: a violation
+    without failing input).  On unchanged sources the same failure stays a checker problem (exit 2 / 3)."""
+    from . import verify as _v
+    base = (_BASELINE.get('__functions__') or {}).get(qname)
+    if not base:
+        return []
+    changed = sorted((q or qname) for q, sha in base.items()
+                     if _v.source_sha_of(q or qname.split('#')[0]) != sha)
+    if not changed:
+        return []
+    out = []
+    for name, b in sorted(_BASELINE.items()):
+        if name.startswith(qname.split('#')[0] + ' : ') and isinstance(b, dict) and b.get('status') == 'unsat' and name not in have:
+            out.append({'obligation': name, 'function': qname, 'regressed': True,
+                        'detail': {'reason': 'discharged on the pinned tree (%s); the source it was generated from has '
+                                             'changed (%s) and the verifier can no longer establish it: %s'
+                                             % (b.get('backend'), ', '.join(changed)[:300], why)}})
+    return out
 
 
 def _jsonable(x):
@@ -295,6 +376,7 @@ def main(argv=None):
         print('CHECKER-ERROR: no contract module for %s' % prop)
         return 3
     tasks = []
+    seen_funcs = {}
     for q, c in _REG.contracts.items():
         if prop in c.props and not c.trusted and c.func is not None:
             if args.only and args.only not in q:
@@ -309,6 +391,14 @@ def main(argv=None):
             if args.only and args.only not in n:
                 continue
             tasks.append(('c', (prop, n)))
+        # checks / bounded stand-ins of another sidecar module that this property rests on too
+        # (`M.shared_checks = [('C09', 'name'), ...]`): run again here, reported under this property
+        for (other, n) in getattr(m, 'shared_checks', ()):
+            if args.only and args.only not in n:
+                continue
+            assert any(n == x[0] for mm in _MODS if mm.prop == other for x in list(mm.checks) + list(mm.bounded_checks)), \
+                'shared check %s/%s does not exist' % (other, n)
+            tasks.append(('c', (other, n)))
     missing = [(q, why) for (q, why) in _REG.missing
                if (q in _REG.contracts and prop in _REG.contracts[q].props) or
                any(q == ls.qname for m in mine for ls in m.loops)]
@@ -348,12 +438,22 @@ def report(prop, mine, results, missing, seed, wall, args):
     vcs = 0
     bounded_all = []
     baseline_out = {}
+    baseline_fns = {}
     for r in results:
         if 'crash' in r:
-            crashes.append((r.get('qname') or r.get('name'), r['crash']))
+            lost = _lost_obligations(r['qname'], set(), 'verifier error: ' + r['crash'][-600:]) \
+                if r.get('qname') else []
+            if lost:
+                refuted.extend(lost)
+                obligations += len(lost)
+            else:
+                crashes.append((r.get('qname') or r.get('name'), r['crash']))
             continue
         if r['kind'] == 'function':
             rep = r['rep']
+            if args.verbose:
+                for q in rep.get('slow_queries', []):
+                    print('SLOW-FEASIBILITY %s: %s' % (rep['qname'], str(q)[:600]))
             functions.append({'name': rep['qname'], 'source': rep['source'], 'sha256': rep['sha256'],
                               'paths': rep['paths'], 'outcomes': rep['outcomes'],
                               'clauses': len(rep['clauses']), 'wall_s': round(rep['wall'], 2),
@@ -372,13 +472,33 @@ def report(prop, mine, results, missing, seed, wall, args):
                 if c is not None and c.trusted:
                     assumed_contracts.add(q)
             samples.extend(rep['samples'][:1])
-            if rep['unsupported']:
+            baseline_fns[rep['qname']] = rep.get('dep_shas') or {}
+            lost = []
+            if rep['unsupported'] or rep['errors']:
+                why = ('unsupported: ' + '; '.join(sorted(set(rep['unsupported']))[:5])) if rep['unsupported'] \
+                    else 'verifier error: ' + rep['errors'][0][-600:]
+                # (an obligation discharged on the explored paths only is not established: some path was given up)
+                lost = _lost_obligations(rep['qname'], set(n for n, cl in rep['clauses'].items()
+                                                          if cl['status'] in ('sat', 'regressed')), why)
+                refuted.extend(lost)
+                if lost:
+                    gone = set(x['obligation'] for x in lost)
+                    rep = dict(rep, clauses={n: cl for n, cl in rep['clauses'].items() if n not in gone})
+            if rep['unsupported'] and not lost:
                 undecided.append((rep['qname'], 'unsupported: ' + '; '.join(sorted(set(rep['unsupported']))[:5])))
-            if rep['errors']:
+            if rep['errors'] and not lost:
                 crashes.append((rep['qname'], '\n'.join(rep['errors'][:3])))
-            if rep['paths'] == 0 and not rep['unsupported'] and not rep['errors']:
+            if lost:
+                # the obligations of the pinned tree that can no longer be generated are reported (below);
+                # what was generated on the paths that could be explored is kept
+                obligations += len(lost)
+                rep = dict(rep, unsupported=[], errors=[], uncovered=[], samples=[])
+            if rep['paths'] == 0 and not rep['unsupported'] and not rep['errors'] and not lost:
                 crashes.append((rep['qname'], 'vacuous: no feasible path (contradictory precondition?)'))
-            if not rep['clauses'] and not rep['unsupported'] and not rep['errors']:
+            if rep.get('uncovered'):
+                crashes.append((rep['qname'], 'vacuous: return/raise never reached on a feasible path (cut off by an '
+                                              'assumption?): ' + '; '.join(rep['uncovered'])))
+            if not rep['clauses'] and not rep['unsupported'] and not rep['errors'] and not lost:
                 crashes.append((rep['qname'], 'vacuous: zero obligations generated'))
             for name, cl in rep['clauses'].items():
                 obligations += 1
@@ -429,12 +549,14 @@ def report(prop, mine, results, missing, seed, wall, args):
             violations.append(rf)
 
     if args.write_baseline and not args.only:
+        baseline_out['__functions__'] = baseline_fns
         os.makedirs(os.path.join(VERIF, 'baseline'), exist_ok=True)
         with open(os.path.join(VERIF, 'baseline', prop + '.json'), 'w') as f:
             json.dump(baseline_out, f, indent=1, sort_keys=True)
     # obligations of the pinned tree that were not generated at all on this run
+    reported = set(rf['obligation'] for rf in refuted)
     for name, b in _BASELINE.items():
-        if b.get('status') == 'unsat' and name not in baseline_out and not args.only \
+        if b.get('status') == 'unsat' and name not in baseline_out and name not in reported and not args.only \
                 and not any(name == u[0] for u in undecided):
             fn = name.split(' : ')[0]
             if not any(fn == u[0] or fn in str(u[0]) for u in undecided) and not any(fn == c[0] for c in crashes):
@@ -476,13 +598,38 @@ def report(prop, mine, results, missing, seed, wall, args):
     if _TIER == 'thorough' and not args.only:
         # validation of the verifier itself (DESIGN 2.4): a failure here is a checker error
         try:
-            from . import crosscheck, modelcheck
-            cc = crosscheck.run(prop, 25, seed)
+            from . import modelcheck
+            import subprocess as _sp
+            # in a process of its own: the native side runs with effectful primitives blocked
+            pcc = _sp.run([sys.executable, '-m', 'pyvc.crosscheck', prop, '--runs', '25', '--json'], cwd=VERIF,
+                          capture_output=True, text=True, timeout=3600,
+                          env=dict(os.environ, VERIF_SEED=str(seed)))
+            try:
+                cc = json.loads(pcc.stdout.strip().splitlines()[-1])
+            except Exception:
+                cc = {'compared': 0, 'failures': ['cross-check crashed: ' + (pcc.stdout + pcc.stderr)[-800:]],
+                      'skipped': {}}
             extra['interpreter_crosscheck_against_cpython'] = {
                 'runs_compared': cc['compared'], 'failures': len(cc['failures']),
-                'functions_without_concrete_inputs': sorted(cc['skipped'])}
+                'functions_without_concrete_inputs_or_with_effects': sorted(cc['skipped'])}
             cases, mfail = modelcheck.run(3)
             extra['string_model_crosscheck_against_cpython'] = {'cases': cases, 'failures': len(mfail)}
+            suites = [x for m in mine for x in getattr(m, 'conformance_suites', [])]
+            if suites:
+                import subprocess
+                env = dict(os.environ, PYTHONPATH=os.pathsep.join([VERIF, REPO_SRC, os.path.join(REPO, 'test')]))
+                p = subprocess.run(['/venv/bin/python', '-W', 'ignore', '-m', 'pyvc.conformance', prop] + suites,
+                                   cwd=VERIF, env=env, capture_output=True, text=True, timeout=1800)
+                try:
+                    conf = json.loads(p.stdout[p.stdout.index('{'):])
+                except Exception:
+                    conf = {'error': (p.stdout + p.stderr)[-800:]}
+                extra['runtime_conformance_under_repository_unit_tests'] = conf
+                if conf.get('precondition_failures') or conf.get('postcondition_failures') or 'error' in conf:
+                    print('CHECKER-ERROR: run-time conformance: %s' % json.dumps(
+                        {k: conf.get(k) for k in ('precondition_failures', 'postcondition_failures', 'error')})[:1500])
+                    if exit_code == 0:
+                        exit_code = 3
             if cc['failures'] or mfail:
                 for f in (cc['failures'] + mfail)[:10]:
                     print('CHECKER-ERROR: cross-check against CPython failed: %r' % (f,))
@@ -495,11 +642,20 @@ def report(prop, mine, results, missing, seed, wall, args):
     evidence = {
         'property_id': prop, 'tier': _TIER, 'seed': seed, 'level': 'proof',
         'coverage': {
-            'obligations': obligations, 'discharged': discharged,
+            # obligations refuted by a LISTED known finding are reported separately (they are genuine,
+            # recorded defects of the program, not claimed as proved and not counted here)
+            'obligations': obligations - len(known_seen), 'discharged': discharged,
+            'obligations_refuted_by_listed_known_findings': len(known_seen),
             'checker_cmd': 'python3-vt -m pyvc.check %s --tier %s' % (prop, _TIER),
             'trusted_base': trusted,
             'functions_under_contract': functions,
             'smt_queries': vcs, 'by_backend': by_backend, 'solver_time_s': round(solver_time, 3),
+            'by_backend_legend': {
+                'path-evaluation': 'the clause evaluated to True on a path whose every symbolic decision was a case '
+                                   'split or an entailment decided by z3 during path exploration (typical for '
+                                   'full-domain enum proofs)',
+                'enumeration': 'finite obligation on real module constants / syntactic scan of the current source',
+            },
             'inlined_transparent_functions': sorted(inlined),
             'refuted': [{'obligation': r['obligation'], 'replay': r['replay'], 'reproduced_natively': r['replayed']}
                         for r in refuted],
